@@ -177,6 +177,12 @@ NESTS = [
     ('p3.ancmig_2_size', 'nu1a,nuA,nu2a,nu3a,nu1b,nu2b,nu3b,0,T1,T2,T3', 'p3.split_nomig_size', 'nu1a,nuA,nu2a,nu3a,nu1b,nu2b,nu3b,T1,T2,T3'),
     ('p3.ancmig_2_size', 'nu1a,nuA,nu2a,nu3a,nu1b,nu2b,nu3b,mA,T1,T2,0', 'p3.ancmig_adj_2', 'nu1a,nuA,nu2a,nu3a,mA,T1,T2'),
     ('p3.sim_split_refugia_sym_mig_adjacent_size', 'nu1a,nu2a,nu3a,nu1b,nu2b,nu3b,m1,m2,T1,T2,0', 'p3.sim_split_refugia_sym_mig_adjacent', 'nu1a,nu2a,nu3a,m1,m2,T1,T2'),
+    ('p3.sim_split_refugia_sym_mig_adjacent_size', 'nu1a,nu2a,nu3a,nu1b,nu2b,nu3b,0,0,T1,0,T3', 'p3.sim_split_no_mig_size', 'nu1a,nu2a,nu3a,nu1b,nu2b,nu3b,T1,T3'),
+    ('p3.sim_split_refugia_sym_mig_adjacent_size', 'nu1a,nu2a,nu3a,nu1b,nu2b,nu3b,m1,m2,0,0,T3', 'p3.sim_split_sym_mig_adjacent', 'nu1b,nu2b,nu3b,m1,m2,T3'),
+    ('p3.ancmig_2_size', 'nu1a,nuA,nu2a,nu3a,nu1b,nu2b,nu3b,0,0,0,T3', 'p3.sim_split_no_mig', 'nu1b,nu2b,nu3b,T3'),
+    ('p3.split_nomig_size', 'nu1a,nuA,nu2a,nu3a,nu1b,nu2b,nu3b,0,0,T3', 'p3.sim_split_no_mig', 'nu1b,nu2b,nu3b,T3'),
+    ('p2.sec_contact_sym_mig_size_three_epoch', 'nu1a,nu2a,nu1b,nu2b,m,0,0,T3', 'p2.no_mig', 'nu1b,nu2b,T3'),
+    ('p2.sec_contact_asym_mig_size_three_epoch', 'nu1a,nu2a,nu1b,nu2b,m12,m21,0,T2,0', 'p2.asym_mig', 'nu1b,nu2b,m12,m21,T2'),
     ('p3.refugia_adj_2_var_sym', 'nu1,nuA,nu2,nu3,0,0,T1,T2', 'p3.split_nomig', 'nu1,nuA,nu2,nu3,T1,T2'),
     ('p3.refugia_adj_2_var_uni', 'nu1,nuA,nu2,nu3,0,0,T1,T2', 'p3.split_nomig', 'nu1,nuA,nu2,nu3,T1,T2'),
     ('p3.refugia_adj_3_var_sym', 'nu1,nuA,nu2,nu3,mA,m2,m3,T1a,0,T2', 'p3.refugia_adj_2_var_sym', 'nu1,nuA,nu2,nu3,m2,m3,T1a,T2'),
@@ -287,6 +293,49 @@ def ob_wellformed(relpath, fname):
             ex2, paths2 = MA.run_model(relpath, fname, ps[:-1], ns, pts, hyps=hy)
             ok = all(p.outcome == 'raise' for p in paths2)
             out.append(struct(base + '/arity-short', ok, 'one parameter fewer is rejected on every path', fn))
+        # every named parameter reaches the numerical layer on some path (a parameter that is unpacked but never used is a wiring slip),
+        # except where the docstring says so
+        used = set()
+
+        def _names(e, acc):
+            if isinstance(e, z3.ExprRef):
+                if z3.is_const(e) and e.decl().kind() == z3.Z3_OP_UNINTERPRETED:
+                    acc.add(e.decl().name())
+                for ch in e.children():
+                    _names(ch, acc)
+
+        def _scan(v, acc, seen):
+            if isinstance(v, Tm):
+                if v.uid in seen:
+                    return
+                seen.add(v.uid)
+                for a in v.args:
+                    _scan(a, acc, seen)
+            elif isinstance(v, (tuple, list)):
+                for a in v:
+                    _scan(a, acc, seen)
+            elif isinstance(v, VList):
+                for a in v.items:
+                    _scan(a, acc, seen)
+            elif isinstance(v, Closure):
+                # evaluate time functions at a fresh t to see which parameters they mention
+                try:
+                    ps_ = MA.Fresh().ex.explore(lambda e_: e_.call(v, [z3.Real('t!scan')], {}))
+                    for q in ps_:
+                        if q.outcome == 'return':
+                            _scan(q.value, acc, seen)
+                except Exception:
+                    pass
+            else:
+                _names(v, acc)
+        for p in paths:
+            _scan(p.value, used, set())
+            for c_ in p.pc:
+                _names(c_, used)
+        doc = ast.get_docstring(node) or ''
+        unused = [n for n in pn if n not in used and not re.search(r'%s\b[^\n]*not used' % re.escape(n), doc)]
+        out.append(struct(base + '/every-parameter-used', not unused, 'named parameters never reaching the numerical layer: %s' % unused if unused else 'all %d named parameters reach the numerical layer' % len(pn), fn,
+                          finding_key=base + '/unused-parameter'))
         for k, p in enumerate(paths):
             v = p.value
             ok = isinstance(v, Tm) and v.op in ('call:dadi.Spectrum_mod.Spectrum.from_phi', 'call:dadi.Spectrum_mod.Spectrum.from_phi_inbreeding')
